@@ -32,7 +32,7 @@ OPTION_SETS = [
 ]
 
 
-def bounds(tier):
+def bounds(tier):  # (+ every DAG shape with <= 3 / 4 arcs given to the cyclic class)
     if tier == "quick":
         return {"shapes": "cyclic shapes of W-DIG(n<=4, arcs<=5) + named shapes with <=6 arcs", "R": 2, "B": 2, "W": 2, "F": 4, "flows_per_shape": "all"}
     return {"shapes": "cyclic shapes of W-DIG(n<=4, arcs<=6) + W-NAMED", "R": 2, "B": 2, "W": 2, "F": 4, "flows_per_shape": "all (named: first 12)"}
@@ -65,6 +65,14 @@ def cases(tier, seed):
             fl = fl[:12]
         for i, fv in enumerate(fl):
             yield {"nodes": names, "arcs": [[u, v, w] for (u, v), w in zip(arcs, fv)], "full": (i % 3 == 0) or not q}
+    # acyclic inputs are in the domain of the cyclic class too: every DAG shape with <= 3 (thorough 4) arcs, flows from <= 3 routes
+    # (single arcs and stars need as many walks as the graph has arcs - the upper end of the search over k)
+    for idx, shp in enumerate(world.dag_shapes(4)):
+        if len(shp[1]) > (3 if q else 4):
+            continue
+        names, arcs = world.present(shp, seed, 700 + idx)
+        for i, fv in enumerate(_flows(names, arcs, 3, 1, 2, 4)[:6]):
+            yield {"nodes": names, "arcs": [[u, v, w] for (u, v), w in zip(arcs, fv)], "full": i == 0, "dag_input": True}
 
 
 def _solve(case, G, kw):
